@@ -24,7 +24,6 @@ impl ResolveLocalEnv {
         Self(im::Vector::new())
     }
 
-    #[allow(unused)]
     pub fn enter_scope(&self) -> Self {
         Self(self.0.clone())
     }
@@ -955,8 +954,9 @@ impl NameResolution {
                 let new_arms = arms
                     .iter()
                     .map(|arm| {
-                        let new_pat = self.resolve_pat(&arm.pat, env, ctx, hir_table);
-                        let new_body = self.resolve_expr(&arm.body, env, ctx, hir_table);
+                        let mut arm_env = env.enter_scope();
+                        let new_pat = self.resolve_pat(&arm.pat, &mut arm_env, ctx, hir_table);
+                        let new_body = self.resolve_expr(&arm.body, &mut arm_env, ctx, hir_table);
                         hir::Arm {
                             pat: new_pat,
                             body: new_body,
@@ -1098,9 +1098,10 @@ impl NameResolution {
                 )
             }
             ast::Expr::EBlock { exprs, astptr } => {
+                let mut block_env = env.enter_scope();
                 let new_exprs = exprs
                     .iter()
-                    .map(|e| self.resolve_expr(e, env, ctx, hir_table))
+                    .map(|e| self.resolve_expr(e, &mut block_env, ctx, hir_table))
                     .collect();
                 self.alloc_expr_with_ptr(hir_table, *astptr, hir::Expr::EBlock { exprs: new_exprs })
             }
